@@ -555,7 +555,7 @@ func main() {
 			if tier == "thorough" {
 				return 20 * time.Minute
 			}
-			return 150 * time.Second
+			return 300 * time.Second
 		},
 		Assumptions: []string{
 			"schema code contains no synchronisation, so each call is one atomic block under the scheduler and the interleavings are the orders of the blocks; whether that atomicity assumption is legitimate is what the race scan decides: two conflicting accesses (instrumented field, package variable or map object) not ordered by happens-before in any explored execution are a race",
